@@ -8,4 +8,5 @@ CONSTANTS
   KF_V1OmitsHDInfo = FALSE
   KF_V12OmitsEmpty = FALSE
   KF_MarkedFlagUncovered = FALSE
+  KF_CoinbaseRider = FALSE
 CHECK_DEADLOCK FALSE
